@@ -102,4 +102,56 @@ PROPS['C07'] = {
                    'loop returns a fixed point of its pass. Longer chains are not covered by a theorem; they are carried by differential execution and a canon oracle on the real code.',
 }
 
+_PLSS_TIE = ('Tied to plss_parse.py / plss_preprocess.py / plssdesc.py by the regenerated patterns and tables, end-to-end differential execution of the extracted model '
+             '(every tract with trs/desc/index/lots/qqs/flags with context, all description flags, layout, pp_desc) and an independent oracle on the real code.')
+PROPS['C01'] = {
+    'group': 'plss', 'level': 'proof', 'build_timeout': 2400,
+    'explanation': 'PARTIAL. The whole parse pipeline (preprocess, finders, chunker, marker walk, clean-up, tract construction, tract parsing) is modelled in Coq and agrees with the code on every '
+                   'compared run; the four documented layout examples are proved by computation on the regenerated patterns (C01_documented_examples). The unbounded statement (every abstract '
+                   'description x every rendering) is not a theorem yet: it is decided on each run by the expected_tracts(D) oracle over random descriptions x layouts x spellings x separators, incl. '
+                   'the pretty_desc round trip (known finding: multi-line blocks). ' + _PLSS_TIE,
+}
+PROPS['C03'] = {
+    'group': 'plss', 'level': 'proof', 'build_timeout': 2400,
+    'explanation': 'PARTIAL. Proved for all texts/settings: every successful parse stages at least one tract component (the copy_all stand-in) and yields exactly one tract per section named, '
+                   'illegal default directions raise DefaultNSError/DefaultEWError. Not proved: absence of every other Raise (needs regex group-content lemmas); that half is decided on each run by '
+                   'the soup/damaged-text x random-configuration oracle (no exception, >= 1 tract, documented rejection classes) and by comparing exception classes model vs code. ' + _PLSS_TIE,
+}
+PROPS['C04'] = {
+    'group': 'plss', 'level': 'proof', 'build_timeout': 2400,
+    'explanation': 'PARTIAL. Proved for all texts, marker lists and layouts: the marker walk hands every text-bearing block either to a tract (after clean-up) or, verbatim and in order, to the unused '
+                   'components; cleanup_desc returns a contiguous piece of its input; every unused block of reportable length becomes an unused_desc flag carrying it verbatim. The preprocessing half is '
+                   'refuted for the P.M. gap (known finding) and otherwise carried by the foreign-word insertion oracle over token boundaries x parse modes. ' + _PLSS_TIE,
+}
+PROPS['C08'] = {
+    'group': 'plss', 'level': 'proof', 'build_timeout': 3000,
+    'explanation': 'PARTIAL. Proved: for every regex match an explicit direction is never overridden by any legal default (C08_explicit_never_overridden); complete enumerations on the regenerated patterns '
+                   'of townships {7,154} x ranges {2,97} x directions x every documented spelling x defaults (argument / MasterConfig): rewritten to T..-R.., sole Twp/Rge found, missing directions filled '
+                   'and reported as fixed; OCR examples. Other numbers/contexts are decided on each run by the oracle over 16 numbers x spellings x channels (config, parse keyword, MasterConfig) x ocr_scrub. ' + _PLSS_TIE,
+}
+PROPS['C09'] = {
+    'group': 'plss', 'level': 'proof', 'build_timeout': 2400,
+    'explanation': 'Proved for all texts/settings: orig_index of the k-th tract is k; every tract trs is the normalised TRS(twprge+sec).trs; a non-matching non-empty string normalises to the error TRS (never '
+                   'the undefined one). That the attributes equal the decomposition of the final string (idempotence of normalisation) is proved only for the finite component domain (C12) and is decided '
+                   'on each run by an independent decomposition oracle on every tract of rendered/damaged/soup texts x configurations, with orig_desc/source/orig_index checked. ' + _PLSS_TIE,
+}
+PROPS['C10'] = {
+    'group': 'plss', 'level': 'proof', 'build_timeout': 2400,
+    'explanation': 'Proved for EVERY text and setting (C10_paired): on the description and on every tract, w_flags/e_flags are paired one-to-one in order with their (flag, context) lines -- through '
+                   'unpackers, TractParser, finders (incl. the colon-cautious second pass and ignored Twp/Rge), ChunkParser, gen_flags_chunk, PLSSParser and hand-down; every description flag is appended to '
+                   'every tract; an error tract puts twprge_error among the error flags. That trigger phrases raise their warnings is decided on each run by the phrase-placement oracle. ' + _PLSS_TIE,
+}
+PROPS['C11'] = {
+    'group': 'plss', 'level': 'proof', 'build_timeout': 2400,
+    'explanation': 'Proved for every text, default, mode and tract setting (C11_forced, C11_forced_plssdesc): a forced copy_all layout yields exactly one tract whose description is the whole preprocessed text; '
+                   'the three channels reach the parser (effective layout = keyword else attribute); every chunk yields at least one tract component, the stand-in stages the whole chunk exactly once. '
+                   'Refuted sub-claim (known finding): the chunk-level fallback tract is cleaned at its edges. Fallback conditions and the error flag are decided on each run by the oracle. ' + _PLSS_TIE,
+}
+PROPS['C20'] = {
+    'group': 'plss', 'level': 'proof', 'build_timeout': 2400,
+    'explanation': 'Proved for every text: if every section match carries a colon the three colon modes give identical finder results (matches, flags, lines); if none does, requiring it rejects all; '
+                   'rebuild_sec_within with exactly one staged tract joins the cleaned leading (index 0) and trailing unused blocks of >= 4 characters around the description in order and otherwise changes nothing. '
+                   'Segment on single-layout descriptions and the end-to-end effect of the modes are decided on each run by the oracle over generated descriptions and placements. ' + _PLSS_TIE,
+}
+
 NOT_CLAIMED = {}
